@@ -37,7 +37,8 @@ theorem addPhase2_absorbed_sub {extra : List Key} (s : State) (k : Key) (m : Map
     · rw [addPhase2_noabsorb s k m ha hb, hf.2.2.1] at hx; exact hx
     · rw [addPhase2_absorb s k m ha hb] at hx
       have := (releaseAbsorbedKeys_spec _ (releaseActionMappings_spec h).1).2.2.1
-      simp only at hx; rw [this] at hx; simp at hx
+      change x ∈ (releaseAbsorbedKeys (releaseActionMappings s).1).1.absorbed at hx
+      rw [this] at hx; simp at hx
 
 theorem addNewMapping_absorbed_sub (s : State) (k : Key) (m : Mapping) (h : IInv [] s) (x : Key)
     (hx : x ∈ (addNewMapping s k m).1.absorbed) : x ∈ s.absorbed ∨ x ∈ m.absorbing := by
@@ -165,7 +166,8 @@ theorem addNewMapping_foreign_pass (s : State) (k0 : Key) (m : Mapping) (h : IIn
         have hf := releaseActionMappings_frame (afterConsume s m)
         have r2 := releaseAbsorbedKeys_pass (releaseActionMappings (afterConsume s m)).1 k
           (by rw [hf.2.2.1]; exact ha) hm2 hr1.1
-        exact ⟨r2.1.trans r1, r2.2⟩
+        have r3 := afterConsume_pass (releaseAbsorbedKeys (releaseActionMappings (afterConsume s m)).1).1 m k h1 h2
+        exact ⟨r3.1.trans (r2.1.trans r1), fun hh => r2.2 (r3.2.mp hh)⟩
   have d1 := (addPhase2_spec (afterConsume s m) k0 m c1).1
   have p3 := pressAll_pass (addPhase2 (afterConsume s m) k0 m).1 m.to k h2
   have hpass3 : (addPhase3 (addPhase2 (afterConsume s m) k0 m).1 k0 m).1.pass =
